@@ -93,6 +93,7 @@ class BuildTaint:
         self.analysed = 0
         self.reached: Set[str] = set()  # functions the construction closure reaches
         self.stream_fields: Set[Tuple[str, str]] = set()  # (owner class, field) holding a wrapper around a user stream
+        self.wrapper_stores: Dict[str, FuncInfo] = {}  # methods of stream wrappers that store their argument
 
     def seed(self):
         for (fs, p), k in SEEDS.items():
@@ -219,6 +220,7 @@ class BuildTaint:
         stores = any(isinstance(x, (ast.Assign, ast.AnnAssign)) and any(is_self_attr(tt) for tt in (x.targets if isinstance(x, ast.Assign) else [x.target]))
                      for x in walk_local(m.node))
         if stores:
+            self.wrapper_stores[m.qual] = m
             fi = self.prog.lookup_attr(t, recv.attr)
             key = (fi.owner if fi is not None else t, recv.attr)
             if key not in self.stream_fields:
@@ -545,6 +547,9 @@ class BuildTaint:
                         self.taint_param(t, params[pos], k)
                     elif t.node.args.vararg:
                         self.taint_param(t, t.node.args.vararg.arg, BOX)
+                elif k == LAZY and pos < len(params):
+                    # a lazily produced user stream handed to a helper: the helper must leave it lazy as well
+                    self.taint_param(t, params[pos], LAZY)
                 pos += 1
             for kn, k in kws.items():
                 if k in (RAW, BOX, SCALAR):
@@ -735,6 +740,58 @@ def lazy_build(prog: Program) -> RuleResult:
     return r
 
 
+def stream_lazy(prog: Program) -> RuleResult:
+    """shared by C10 (building a query consumes nothing) and C20 (a query that was only built pins nothing)"""
+    r = RuleResult("STREAM-LAZY", "a user stream handed to a lazy wrapper is stored, not pulled from", floor=1)
+    bt = BuildTaint(prog)
+    bt.run()
+    if not bt.wrapper_stores:
+        raise AnalysisError("STREAM-LAZY: no method through which a user stream enters a lazy wrapper was found (HashedIterable.set_iterable is the confirmed instance)")
+    # The methods through which a user stream is put into a lazy wrapper (HashedIterable.set_iterable ...) are analysed once more with their
+    # argument taken for what it may be in the worst case: a one-shot, lazily produced stream.  (The main pass keeps one kind per field and a
+    # scalar domain out-ranks a lazy one there.)  Storing it, or wrapping it in a generator whose *first* iterable it is, keeps it lazy;
+    # list(...), make_list(...), sorted(...) of it - also as the first iterable of a generator expression, which is evaluated when the
+    # expression is created - pulls everything while the query is still being built and keeps strong references to all of it.
+    eager_helpers = _eager_params(prog)
+    for q, m in sorted(bt.wrapper_stores.items()):
+        params = set(m.params[1:] if m.cls is not None else m.params)
+        # positions that run later: lambda bodies, and everything of a generator expression except its first iterable
+        later = set()
+        for x in ast.walk(m.node):
+            if isinstance(x, ast.Lambda):
+                later |= {id(y) for y in ast.walk(x.body)}
+            if isinstance(x, ast.GeneratorExp):
+                later |= {id(y) for y in ast.walk(x.elt)}
+                for gi, g in enumerate(x.generators):
+                    if gi > 0:
+                        later |= {id(y) for y in ast.walk(g.iter)}
+                    for c_ in g.ifs:
+                        later |= {id(y) for y in ast.walk(c_)}
+        new = []
+        for c_ in [c_ for c_ in calls_in(m.node) if id(c_) not in later]:
+            hit = None
+            if isinstance(c_.func, ast.Name) and c_.func.id in EAGER and c_.args and isinstance(c_.args[0], ast.Name) and c_.args[0].id in params:
+                hit = f"{c_.func.id}() pulls everything from the stream"
+            tq = m.module.resolve(c_.func) if isinstance(c_.func, (ast.Name, ast.Attribute)) else None
+            if tq in eager_helpers:
+                tf = prog.functions[tq]
+                for i_, a_ in enumerate(c_.args):
+                    if isinstance(a_, ast.Name) and a_.id in params and i_ < len(tf.params) and tf.params[i_] in eager_helpers[tq]:
+                        hit = f"{tf.name}() materialises its argument"
+            if hit:
+                new.append((m, c_, hit))
+        for lp in [x for x in walk_local(m.node) if isinstance(x, ast.For) and isinstance(x.iter, ast.Name) and x.iter.id in params]:
+            new.append((m, lp.iter, "a loop runs over the stream"))
+        for x in [x for x in walk_local(m.node) if isinstance(x, (ast.ListComp, ast.SetComp, ast.DictComp)) and isinstance(x.generators[0].iter, ast.Name) and x.generators[0].iter.id in params]:
+            new.append((m, x, "a comprehension runs over the stream"))
+        r.check(not new, f"{m.short}#stream-stays-lazy", site(m, new[0][1]) if new else site(m), src(new[0][1])[:100] if new else "stores / wraps its argument lazily",
+                "a lazily produced stream handed to the wrapper is not pulled from",
+                "while the query is being built: " + "; ".join(sorted({f"{w} [{src(n)[:50]}]" for _, n, w in new})) +
+                " - the whole domain is read (and held by strong references) as soon as let(...) runs: a one-shot generator is consumed before the first result is asked for, and the "
+                "instances a domain-less variable ranges over are pinned by a query that was only built")
+    return r
+
+
 # ---- evaluation side -------------------------------------------------------------------------------
 EAGER = {"list", "tuple", "set", "frozenset", "sorted", "len", "max", "min", "sum", "dict", "reversed"}
 EXEMPT = {
@@ -836,6 +893,10 @@ def _stream_scan(prog: Program, f, eager_params: Dict[str, Set[str]]):
             for g in n.generators:
                 if is_stream(g.iter):
                     hits.append((n, "an eager comprehension drains a result stream / domain"))
+        # (a,) = stream / a, b = stream / [a] = stream: unpacking asks for one element more than there are targets (to check the arity),
+        # which runs the producer to its end when the number fits; a starred target takes everything
+        if isinstance(n, ast.Assign) and any(isinstance(t, (ast.Tuple, ast.List)) for t in n.targets) and is_stream(n.value):
+            hits.append((n, "unpacking a result stream drains it (the arity check pulls until the producer ends)"))
     return hits
 
 
@@ -943,4 +1004,4 @@ def lazy_eval(prog: Program) -> RuleResult:
 
 
 def run(prog: Program, tier: str) -> List[RuleResult]:
-    return [lazy_build(prog), lazy_eval(prog)]
+    return [lazy_build(prog), lazy_eval(prog), stream_lazy(prog)]
